@@ -246,3 +246,41 @@ package putsvc
 //@   property C25
 //@   loop 3 iteration [enabled_rep_rule_joins_the_order] repRules[rangeindex] > 0 ==> len(ruleOrder) == old(len(ruleOrder)) + 1 && ruleOrder[len(ruleOrder) - 1] == rangeindex
 //@   loop 4 iteration [enabled_ec_rule_joins_the_order] ecLimits == nil || ecLimits[rangeindex] > 0 ==> len(ruleOrder) == old(len(ruleOrder)) + 1 && ruleOrder[len(ruleOrder) - 1] == len(repRules) + rangeindex
+
+// Under MaxReplicas the replicas still owed and the replicas acknowledged so far add up to
+// MaxReplicas while the rules are tried, and trying stops early only when the total is
+// reached: acked(0) counts what the REP handler reports as stored and one per EC rule applied
+// successfully.
+//@ ghost field acked(x int) uint
+//@ callrule c25_rep_acknowledgements in (*distributedTarget).saveObject
+//@   property C25
+//@   callee (put.placementIterator).handleREPRule
+//@   assigns acked
+//@   defines wide(acked(0)) == wide(old(acked(0))) + wide(res0)
+//@ callrule c25_ec_acknowledgements in (*distributedTarget).saveObject
+//@   property C25
+//@   callee (*put.distributedTarget).applyECRule
+//@   assigns acked
+//@   defines wide(acked(0)) == wide(old(acked(0))) + ite(err == nil, 1, 0)
+// (the broadcast branch - tombstones, locks, links - ends with the same call before any of
+// this is set up: maxReplicasRead(0) tells the two apart)
+//@ ghost field maxReplicasRead(x int) bool
+//@ callrule c25_max_replicas_read in (*distributedTarget).saveObject
+//@   property C25
+//@   callee *).MaxReplicas
+//@   pureeffect
+//@   assigns maxReplicasRead
+//@   defines maxReplicasRead(0)
+//@ callrule c25_rules_left_only_with_the_total_reached in (*distributedTarget).saveObject
+//@   property C25
+//@   callee (*put.distributedTarget).submitMetaCollection
+//@   requires [owed_plus_acknowledged_is_max_replicas_or_the_total_is_reached] maxReplicasRead(0) && maxReplicas > 0 ==> wide(leftReplicas) + wide(acked(0)) == wide(maxReplicas) || wide(acked(0)) >= wide(maxReplicas)
+//@ func (*distributedTarget).saveObject
+//@   property C25
+//@   opt wide=80
+//@   valid acked(0) == 0 && !maxReplicasRead(0)
+//@   loop 1 invariant acked(0) == 0 && !maxReplicasRead(0)
+//@   loop 2 invariant acked(0) == 0
+//@   loop 3 invariant acked(0) == 0
+//@   loop 4 invariant acked(0) == 0
+//@   loop 5 invariant [owed_plus_acknowledged_is_max_replicas] maxReplicas > 0 ==> wide(leftReplicas) + wide(acked(0)) == wide(maxReplicas)
